@@ -8,13 +8,27 @@ from typing import Any, Dict, List
 from . import bmd
 
 DELTA = (0.13, 0.07, 0.11)
+# where the model stands and how far a "moved" vertex goes: near the origin with moves of a tenth of a block, or far away
+# with moves of half a hundredth (still five orders of magnitude above the merge tolerance, but small RELATIVE to the coordinates)
+PLACEMENT = {"offset": (0.0, 0.0, 0.0), "scale": 1.0}
+FAR = {"offset": (2000.0, -3000.0, 1000.0), "scale": 0.05}
+NEAR = {"offset": (0.0, 0.0, 0.0), "scale": 1.0}
+
+
+def place(where: dict) -> None:
+    PLACEMENT.update(where)
+
+
+def delta():
+    return tuple(d * PLACEMENT["scale"] for d in DELTA)
 
 
 def pos_coords(p: int):
     m, r = divmod(p, 1000)
     z, r = divmod(r, 100)
     y, x = divmod(r, 10)
-    return (x + DELTA[0] * m, y + DELTA[1] * m, z + DELTA[2] * m)
+    o, d = PLACEMENT["offset"], delta()
+    return (o[0] + x + d[0] * m, o[1] + y + d[1] * m, o[2] + z + d[2] * m)
 
 
 def base_pos(o: int, k: int) -> int:
